@@ -198,6 +198,7 @@ func TestC16(t *testing.T) {
 		return
 	}
 	avoid := pbt.AvoidTags("C16", "C11")
+	c.SetRecheck(func(k any) []pbt.Violation { return evalC16(k.(c16Case)) })
 	c.ReplayKnown(t, func(raw json.RawMessage) []pbt.Violation {
 		var k c16Case
 		_ = json.Unmarshal(raw, &k)
